@@ -19,7 +19,10 @@ var (
 	ErrRaceA = gerror.FactoryOf(&gerror.GError{Name: "ErrRaceA"})
 	ErrRaceB = gerror.FactoryOf(&gerror.GError{Name: "ErrRaceB", Message: "preset message"})
 	ErrRaceC = gerror.FactoryOf(&gerror.GError{Name: "ErrRaceC", Message: "m", Source: "preset:Source"})
-	raceFacs = []gerror.Factory{ErrRaceA, ErrRaceB, ErrRaceC}
+	// bare roots, declared without FactoryOf - the way gsync.ErrWGTimeout and gconfig.ErrFailedParsing are
+	ErrRaceD gerror.Factory = &gerror.GError{Name: "ErrRaceD", Message: "bare root"}
+	ErrRaceE gerror.Factory = &gerror.GError{Name: "ErrRaceE"}
+	raceFacs                = []gerror.Factory{ErrRaceA, ErrRaceB, ErrRaceC, ErrRaceD, ErrRaceE}
 )
 
 type raceStep struct {
